@@ -175,11 +175,11 @@ def correspond_robust(run, group, module, terms, cases, shard=250, retries=3):
             # cases of the shards that did complete were not counted as validated traces because of the error
             ok_cases = len(todo_terms) - len(sub_t)
             run.traces += ok_cases - run.corr_groups[gname]["disagree"]
-            run.notes.append("correspondence group %s: %d shard(s) died (coqc killed / crashed), re-run as %s-retry%d"
+            run.notes.append("correspondence group %s: %d shard(s) died (coqc killed / crashed), re-run as %sR%d"
                              % (gname, len(idx), group, attempt + 1))
             time.sleep(5 * (attempt + 1))
             vlib.NCPU = max(1, vlib.NCPU // 2)
-            gname = "%s-retry%d" % (group, attempt + 1)
+            gname = "%sR%d" % (group, attempt + 1)
             todo_terms, todo_cases = sub_t, sub_c
             run.correspond(gname, module, todo_terms, todo_cases, shard=shard)
     finally:
@@ -209,7 +209,18 @@ def main(run):
                         "ES individuals: strategy has the length of the individual",
                         "permutation operators: both parents are permutations of 0..n-1 of equal length",
                         "numpy-backed individuals only for element-wise operators (slices of numpy arrays are views)"]
-    run.build_props()
+    ok = run.build_props()
+    for attempt in range(2):
+        # a coqc/make killed by the OOM killer on the shared machine is not a broken proof: retry.
+        # A genuine failure carries Coq's "Error:" in its log and is reported.
+        if ok or any("Error:" in (b.get("log") or "") for b in run.broken):
+            break
+        import time
+        run.notes.append("build attempt %d died without a Coq error (killed?), retrying" % (attempt + 1))
+        del run.broken[:]
+        del run.obligations[:]
+        time.sleep(10 * (attempt + 1))
+        ok = run.build_props()
     rng = run.rng
 
     def mkclass(name, base_, **kw):
